@@ -823,15 +823,14 @@ class DataType(object):
         if split_data_type[1] == 'decimal':
             decimal_precision = split_data_type[3]
             try:
-                # Note that the % operator converts decimals into floats, loosing precision.
-                return {format(Decimal(value), '.' + decimal_precision + 'f') for value in values}
+                return {self._format_decimal(value, int(decimal_precision)) for value in values}
             except (TypeError, ValueError, decimal.InvalidOperation):
                 raise EDXMLEventValidationError(
                     'Invalid decimal value in list: "%s"' % '","'.join([repr(value) for value in values])
                 )
         elif split_data_type[1] == 'currency':
             try:
-                return {format(Decimal(value), '.4f') for value in values}
+                return {self._format_decimal(value, 4) for value in values}
             except (TypeError, ValueError, decimal.InvalidOperation):
                 raise EDXMLEventValidationError(
                     'Invalid currency value in list: "%s"' % '","'.join([repr(value) for value in values])
@@ -859,6 +858,15 @@ class DataType(object):
                 )
             else:
                 return normalized
+
+    @staticmethod
+    def _format_decimal(value, precision):
+        # Note that the % operator converts decimals into floats, loosing precision.
+        formatted = format(Decimal(value), '.%df' % precision)
+        if formatted.startswith('-') and formatted.strip('-0.') == '':
+            # Zero must not have a sign.
+            formatted = formatted[1:]
+        return formatted
 
     def _normalize_hex(self, values):
         try:
